@@ -40,7 +40,8 @@ def strategy(tier):
 
 def build_case(desc, out):
     c = desc["combo"]
-    s, why = gm.make(c["mat"], c["form"], c["facet"], c["layers"], c["pbcz"])
+    gap = desc.get("gap") if (c["form"] == "slab" and c["pbcz"]) else None
+    s, why = gm.make(c["mat"], c["form"], c["facet"], c["layers"], c["pbcz"], gap=gap)
     if s is None:
         out.discard = "precondition:" + why
         return None
@@ -48,6 +49,12 @@ def build_case(desc, out):
     if pc:
         out.discard = "precondition:" + pc
         return None
+    if gap is not None:
+        # a slab: not bonded to its own image, with the same margin as the bonding precondition (and 0.2 A on top)
+        if gm.image_clearance(s) < 0.65 + 0.15 + 2 * c["noise"] + 0.2:
+            out.discard = "precondition:thin-vacuum-slab-bonded-to-image"
+            return None
+        out.cls("thin-vacuum")
     s2, perm = gm.present(s, desc["pres"], c["noise"])
     return s, s2, perm
 
